@@ -531,6 +531,14 @@ Definition cast_vote (a : addr) (pid : Z) (s : state) : outcome state :=
   | None => Err EProposal
   end.
 
+(* ---------- restart from an exported genesis ---------- *)
+(* x/migrate/module.go: ExportGenesis writes every record (keeper.ExportGenesis), but AppModule.InitGenesis
+   ignores its data argument and calls keeper.InitGenesis(ctx, types.GenesisState{}): the new chain starts
+   with an empty migrate store.  The other modules' export/import is outside this model (taken as lossless
+   on the components carried here; the correspondence compares only the migrate store for this step). *)
+Definition export_import (s : state) : state :=
+  set_mig s {| recs := []; dir_from := []; dir_to := [] |}.
+
 (* ---------- operations and histories ---------- *)
 Section Ops.
   Variable sigT : Type.
@@ -541,7 +549,8 @@ Section Ops.
   | OEndBlock (t next : time) (burns : list Z)
   | OSubmit (a : addr) (amt : Z)
   | ODeposit (a : addr) (pid amt : Z)
-  | OVote (a : addr) (pid : Z).
+  | OVote (a : addr) (pid : Z)
+  | OExportImport.
 
   (* a failed (or panicking) transaction leaves the state as it was *)
   Definition keep (s : state) (o : outcome state) : state :=
@@ -554,6 +563,7 @@ Section Ops.
     | OSubmit a amt => keep s (submit_proposal a amt s)
     | ODeposit a pid amt => keep s (add_deposit pid a amt s)
     | OVote a pid => keep s (cast_vote a pid s)
+    | OExportImport => export_import s
     end.
 
   Definition run (s : state) (ops : list op) : state := fold_left step ops s.
